@@ -32,7 +32,7 @@ ELEMS = ["uint8", "int16", "uint32", "int64", "uint24", "int48", "uint128", "flo
 
 @st.composite
 def field_case(draw):
-    o = gens.opts(max_fields=5, max_depth=1, bits=False, void=False, unions=False, pointers=draw(st.booleans()), signed_flags=False, array_weight=True)
+    o = gens.opts(max_fields=5, max_depth=1, bits=draw(st.booleans()), bits_weight=1, void=False, unions=False, pointers=draw(st.booleans()), signed_flags=False, array_weight=True, long_strings=True, null_structs=True)
     return draw(gens.input_case(o))
 
 
